@@ -281,6 +281,28 @@ pub fn run(ctx: &mut Ctx) -> (&'static str, String, bool) {
         let stride = pool.len() as f64 / limit as f64;
         pool = (0..limit).map(|i| pool[(i as f64 * stride) as usize].clone()).collect();
     }
+    // numbers that are adjacent f32 values (or a few ulps apart): equality must not be looser than the order
+    {
+        let mut near: Vec<GameVersion> = vec![];
+        for base in [0.7f32, 0.6, 0.04, 1.0, 0.5, 1e-7, 0.0, 16.0, 0.1] {
+            for k in [0i32, 1, 2, -1, 3] {
+                let x = f32::from_bits((base.to_bits() as i64 + k as i64).max(0) as u32);
+                for tail in ["F", "F2"] {
+                    let txt = format!("{}{tail}", x);
+                    let mut p = Part::new();
+                    check_string(&txt, &mut p, Some(&mut near));
+                    ctx.merge(p);
+                }
+            }
+        }
+        for txt in ["0A", ".0000001A", ".0000002A", "0.7F", "0.70000005F", "0.69999996F"] {
+            let mut p = Part::new();
+            check_string(txt, &mut p, Some(&mut near));
+            ctx.merge(p);
+        }
+        ctx.extra("near_equal_numbers_in_pool", json!(near.len()));
+        pool.extend(near);
+    }
     ctx.extra("order_pool", json!(pool.len()));
     let pool_ref = &pool;
     let n = pool.len();
